@@ -414,6 +414,13 @@ func Run(c *core.Ctx, pool *gjs.Pool) {
 		files["script.json"] = string(sj) + "\n"
 		c.Report(core.Case{Keys: classify(x.Prog), Summary: fmt.Sprintf("execution not allowed by Go channel semantics (GoChanTrace rejects it; the reference toolchain's executions of the same program are accepted): program %s, end=%s", k, x.End), Files: files})
 	}
+	c.Phase("verdicts")
+	nImpl := c.Pick(150, 2500)
+	if nImpl > len(list) {
+		nImpl = len(list)
+	}
+	implModel(c, list[:nImpl], allJS)
+	c.Phase("impl_model")
 	for i, x := range allJS {
 		if i%(len(allJS)/4+1) == 0 {
 			c.Sample(map[string]any{"program": x.Prog, "script": x.Script, "end": x.End, "events": len(x.Events)})
